@@ -33,6 +33,7 @@ EXPLANATION = (
     "completed=True on it before requesting the destination admission; (R10.5c) task_queue.get* is called only by "
     "management_task and shutdown; (R10.7) in management_task every emptiness test of executing_tasks is preceded by "
     "_cleanup_executing_tasks() since the loop head. Decides these clauses, not linearizability or liveness."
+    ' (R10.2d) an admission region around expunge(check_deleted=False) must use a command kind for which the abstractly evaluated would_conflict is True against every executing kind even with an empty Deleted sequence.'
 )
 RULE_TEXT = (
     "instances: each operation call site; each enqueued command kind; each loop return; each cell of the extracted "
